@@ -395,6 +395,11 @@ impl<'a> Exec<'a> {
         let vars: Vec<String> = vars.into_iter().collect();
         let n = vars.len().min(10);
         for o in self.s.possible(c) {
+            // response keys this selection set can produce for runtime type `o` under some assignment:
+            // the emitted type can (and does: `k?: never`) say that such a key is absent in the branches
+            // that do not select it, so even in open mode these keys are not "extra"
+            let mut colls: Vec<Collected> = vec![];
+            let mut universe: BTreeSet<String> = BTreeSet::new();
             for mask in 0..(1u32 << n) {
                 let sigma: Sigma = vars.iter().enumerate().map(|(i, v)| (v.clone(), i < n && (mask >> i) & 1 == 1)).collect();
                 let mut coll: Collected = vec![];
@@ -402,7 +407,16 @@ impl<'a> Exec<'a> {
                 for ss in sel_sets {
                     self.collect(&o, ss, &sigma, &mut seen, &mut coll);
                 }
+                for (k, _) in &coll {
+                    universe.insert(k.clone());
+                }
+                colls.push(coll);
+            }
+            for coll in colls {
                 if (!open && coll.len() != m.len()) || !coll.iter().all(|(k, _)| m.contains_key(k)) {
+                    continue;
+                }
+                if open && universe.iter().any(|k| !coll.iter().any(|(ck, _)| ck == k) && m.get(k).map(|x| !matches!(x, Val::Undefined)).unwrap_or(false)) {
                     continue;
                 }
                 let mut ok = true;
